@@ -17,7 +17,7 @@ RULE = ("(b) real objdump -d -M att output of enumerated code bytes: for elf64-x
         "byte-continuation, (bad)). Oracle: an independent classifier that splits lines on TAB: number, order and addresses "
         "of stream records = those of instruction lines; the record's mnemonic is one of the blank-separated tokens of the "
         "instruction text ('(bad)' <-> 'bad'); no exception. Non-trivial = instruction lines (distinct by construction: "
-        "each window is generated once). Corpus family: EVERY instruction line (about 347 000) of the real objdump output of the 10 binaries under tests/binary and of the 26 listings under tests/assembly (thorough: also system binaries where present), judged line by line with the same clauses.")
+        "each window is generated once). Corpus family: EVERY instruction line (about 347 000) of the real objdump output of the 10 binaries under tests/binary and of the 26 listings under tests/assembly (thorough: also system binaries where present), judged line by line with the same clauses. Exotic family: ~70 unusual instructions through real as+objdump, in the default layout and with --insn-width=15 (one line per instruction, up to 15 raw bytes in the byte column), each also with CRLF.")
 ASSUMPTIONS = ["GNU objdump 2.40 AT&T output; windows cover 1- and 2-byte opcode/prefix space exhaustively, longer encodings through the tails"]
 LEVEL_TEXT = ("Every 1- and 2-byte prefix of the x86 code space (both ELF classes) disassembled by the real objdump and every "
               "short sequence of line kinds goes through the real parser; counts, order, addresses and mnemonics compared "
